@@ -122,11 +122,101 @@ func filterSourceFields(p *Program) map[int]string {
 	return out
 }
 
+func isFilterMethod(f *ssa.Function) bool {
+	rv := f.Signature.Recv()
+	return rv != nil && isFilterPtr(types.NewPointer(derefT(rv.Type())))
+}
+
+// filterFieldOf: the backward slice of v (through calls' arguments, φ-nodes, appends, conversions, range
+// elements and loads of locals) reads exactly one of the two prefix lists of the configuration; returns its
+// field name.
+func filterFieldOf(v ssa.Value) string {
+	found := map[string]bool{}
+	seen := map[ssa.Value]bool{}
+	var walk func(x ssa.Value, d int)
+	walk = func(x ssa.Value, d int) {
+		if x == nil || d == 0 || seen[x] {
+			return
+		}
+		seen[x] = true
+		if f, _, ok := loadedField(x); ok && (f.Name() == "PrefixDeny" || f.Name() == "PrefixAllow") {
+			found[f.Name()] = true
+			return
+		}
+		switch y := x.(type) {
+		case *ssa.Call:
+			for _, a := range y.Common().Args {
+				walk(a, d-1)
+			}
+		case *ssa.Phi:
+			for _, e := range y.Edges {
+				walk(e, d-1)
+			}
+		case *ssa.Slice:
+			walk(y.X, d-1)
+		case *ssa.Convert:
+			walk(y.X, d-1)
+		case *ssa.ChangeType:
+			walk(y.X, d-1)
+		case *ssa.MakeInterface:
+			walk(y.X, d-1)
+		case *ssa.Extract:
+			walk(y.Tuple, d-1)
+		case *ssa.Next:
+			walk(y.Iter, d-1)
+		case *ssa.Range:
+			walk(y.X, d-1)
+		case *ssa.Index:
+			walk(y.X, d-1)
+		case *ssa.IndexAddr:
+			walk(y.X, d-1)
+		case *ssa.Alloc:
+			for _, st := range allocStores(y) {
+				walk(st.Val, d-1)
+			}
+			for _, rf := range refsOf(y) {
+				if ia, ok := rf.(*ssa.IndexAddr); ok {
+					for _, r2 := range refsOf(ia) {
+						if st, ok := r2.(*ssa.Store); ok {
+							walk(st.Val, d-1)
+						}
+					}
+				}
+			}
+		case *ssa.UnOp:
+			if a, ok := y.X.(*ssa.Alloc); ok {
+				for _, st := range allocStores(a) {
+					walk(st.Val, d-1)
+				}
+				// elements stored into a local array (variadic argument packs)
+				for _, rf := range refsOf(a) {
+					if ia, ok := rf.(*ssa.IndexAddr); ok {
+						for _, r2 := range refsOf(ia) {
+							if st, ok := r2.(*ssa.Store); ok {
+								walk(st.Val, d-1)
+							}
+						}
+					}
+				}
+			} else {
+				walk(y.X, d-1)
+			}
+		}
+	}
+	walk(v, 20)
+	if len(found) == 1 {
+		for k := range found {
+			return k
+		}
+	}
+	return ""
+}
+
 func ruleAdmit(p *Program, r *Result) {
 	src := filterSourceFields(p)
 	// A1: the lookup goroutine
 	foundLookup := false
-	for _, upd := range p.FuncsIn(func(path string) bool { return path == loaderPkg }) {
+	for _, upd := range p.UnitsIn(func(path string) bool { return path == loaderPkg }) {
 		for _, b := range upd.Blocks {
 			for _, in := range b.Instrs {
 				g, ok := in.(*ssa.Go)
@@ -136,6 +226,19 @@ func ruleAdmit(p *Program, r *Result) {
 				cl := g.Call.StaticCallee()
 				if cl == nil || cl.Blocks == nil {
 					continue
+				}
+				// the filters' own methods are units of this rule: the function as written is preferred; its
+				// view only when the consultation is spread over helpers
+				if p.useViews {
+					direct := 0
+					for _, c := range allCalls(cl) {
+						if f := c.Common().StaticCallee(); f != nil && isFilterMethod(f) {
+							direct++
+						}
+					}
+					if direct < 2 {
+						cl = p.viewKeeping(cl, isFilterMethod)
+					}
 				}
 				// which closure parameters are filters, and from which config field do they come?
 				role := map[*ssa.Parameter]string{}
@@ -156,6 +259,9 @@ func ruleAdmit(p *Program, r *Result) {
 							if f, ok := src[idx]; ok {
 								role[pr] = f
 							}
+						} else if f := filterFieldOf(s); f != "" {
+							// the filter builder was folded into this function: the value is built right here
+							role[pr] = f
 						}
 					}
 				}
